@@ -22,7 +22,8 @@ ASSUMPTIONS = ['laws: not F[a,b] p = G[a,b] not p; not O[a,b] p = H[a,b] not p (
 
 def operands(tier):
     px, py, X, Y = F.PX, F.PY, F.X, F.Y
-    ps = [px, X, ('once', (0, 1), px), ('not', px), ('and', px, py), ('historically', None, X), ('eventually', (0, 1), X), ('pred', '==', X, Y)]
+    ps = [px, X, ('once', (0, 1), px), ('not', px), ('and', px, py), ('historically', None, X), ('eventually', (0, 1), X), ('pred', '==', X, Y),
+          ('once', None, X), ('and', ('once', None, X), py), ('not', ('historically', None, X))]
     qs = [py, Y]
     if tier != 'quick':
         ps += [('since', None, X, Y), ('always', (1, 2), px), ('once', None, ('or', px, py))]
